@@ -591,6 +591,11 @@ func ruleC17Arms(e *Env) {
 							walk(x, depth+1)
 						case *ssa.MakeInterface:
 							walk(x, depth+1)
+						case *ssa.Slice:
+							arms[kind]["(cut)"] = true // a part of the text is taken: the other arm must do the same
+							walk(x, depth+1)
+						case *ssa.Index, *ssa.IndexAddr, *ssa.Range:
+							arms[kind]["(read byte-wise)"] = true
 						case ssa.CallInstruction:
 							cc := x.Common()
 							if bi, isB := cc.Value.(*ssa.Builtin); isB && (bi.Name() == "len" || bi.Name() == "cap") {
